@@ -13,6 +13,19 @@ import os
 
 import numpy as np
 
+
+POPULATION_CAP = 1e7
+ATTEMPT_CAP = 60000
+
+
+class Exploded(Exception):
+    """the recorder stopped a run whose population passed POPULATION_CAP"""
+
+
+class TooLong(Exception):
+    """the recorder stopped a run after ATTEMPT_CAP attempts"""
+
+
 from harness import build  # noqa: F401  (sets sys.path to the working tree)
 import pygom.model.simulate as sim_mod
 import pygom.model.stochastic_simulation as ss_mod
@@ -84,6 +97,14 @@ def recording():
     orig_fr, orig_tl = sim_mod.firstReaction, sim_mod.tauLeap
 
     def begin(kind, x, t):
+        # a generated model whose population has left every bound (outside the bounded-rate quantifier), or a run of
+        # absurd length, is stopped HERE, deterministically: a timer alone is not enough (an exception raised by a signal
+        # handler inside a finalizer is swallowed by the interpreter, and the simulation then runs until memory is gone)
+        if rec.cur is not None:
+            if float(np.max(np.abs(np.asarray(x, float)))) > POPULATION_CAP:
+                raise Exploded("population beyond %g" % POPULATION_CAP)
+            if len(rec.cur["attempts"]) >= ATTEMPT_CAP:
+                raise TooLong("more than %d attempts" % ATTEMPT_CAP)
         rec.att = {"kind": kind, "xb": np.array(x, float).copy(), "tb": float(t), "exp": [], "other_draws": [],
                    "foreign_rng": 0, "clocks": None, "clock_rates": None}
 
